@@ -481,7 +481,7 @@ def main(tier, seed):
         required_stats=("time_cases", "queue_pops_checked", "queue_tie_pops",
                         "full_queue_scenarios", "full_queue_removals_below_the_root"),
         chunk=1,
-        budget_s=240 if tier == "quick" else 2400, confirm_job=confirm_job)
+        budget_s=240 if tier == "quick" else 900, confirm_job=confirm_job)
 
 
 def replay(path):
